@@ -14,6 +14,7 @@ type Emitter struct {
 	names    map[string]bool
 	Decls    []string // pending declarations/definitions, in dependency order
 	NDecl    int
+	All      []string // every declaration ever taken (for dumping standalone queries)
 }
 
 func NewEmitter() *Emitter { return &Emitter{declared: map[int]bool{}, names: map[string]bool{}} }
@@ -201,5 +202,6 @@ func (e *Emitter) Bool(b *Bool) string {
 func (e *Emitter) TakeDecls() []string {
 	d := e.Decls
 	e.Decls = nil
+	e.All = append(e.All, d...)
 	return d
 }
